@@ -79,6 +79,17 @@ func c08Lint(e *Env) {
 					if r.Chance(1, 3) {
 						emit("-- dropping " + t)
 					}
+					// the statement need not start its line: indentation, a block comment or another statement in
+					// front of it on the same line
+					switch r.Intn(6) {
+					case 0:
+						b.WriteString("    ")
+					case 1:
+						b.WriteString("/* cleanup */ ")
+					case 2:
+						added++
+						b.WriteString(fmt.Sprintf("ALTER TABLE t1 ADD COLUMN y%d int; ", added))
+					}
 					exps = append(exps, exp{t, b.Len(), line})
 					if r.Chance(1, 4) {
 						emit("DROP TABLE")
